@@ -12,6 +12,19 @@ rejected by an overridden is_safe_callable.  Templates are composed from
 Every case is rendered twice: with the unmarked *twin* (must be invoked at
 least once, otherwise the case is unreached and not counted) and with the marked
 callable: zero invocations and SecurityError from render are required.
+
+Second part, *histories*: the verdict for a callable may legitimately change
+while one environment lives (a mark set after the first use, a deny-list the
+application extends between two renderings, an overridden check that looks at
+the receiver of a bound method).  A history is a short sequence of steps on ONE
+fresh environment over a family of two sibling callables A and B (two closures
+of one def, two instances of one class bound to the same method, two classes
+sharing a classmethod, two partials of one function, two callable instances):
+  call T / call both in one render / set a mark / remove a mark / render
+  templates that use an unrelated family.
+Every call step is judged against the marks and the policy in force at that
+moment: allowed -> the callable runs and no SecurityError; forbidden -> zero
+invocations and SecurityError.
 """
 from __future__ import annotations
 
@@ -26,10 +39,14 @@ RULE = ("case = (obtain form x alias wrapper x call site x argument form x calla
         "counted as distinct and non-trivial only when the control twin (same construction, no "
         "mark) is actually invoked by the template")
 LEVEL_TEXT = ("held on every reached case: 0 invocations of the marked callable and SecurityError "
-              "raised, over the composed grammar of reach paths (not exhaustive over all templates)")
+              "raised, over the composed grammar of reach paths (not exhaustive over all templates); "
+              "on every enumerated/sampled multi-step history on one environment each call was allowed "
+              "or refused according to the marks and policy in force at that step")
 ASSUMPTIONS = [
     "callables are invoked by call syntax written in the template (or call blocks); engine-internal calls of data objects' protocol methods are out of scope",
     "marks: jinja2.sandbox.unsafe, alters_data=True, and an is_safe_callable override that rejects objects carrying vt_forbidden and defers to super() otherwise",
+    "histories: the override additionally rejects objects (or bound receivers) carrying vt_frozen and objects whose vt_name is in the environment's deny-list; marks are set on and removed from the object the template calls (function, instance, partial, class) or the function/class shared by both siblings; the unsafe mark is removed by deleting the attribute(s) jinja2.sandbox.unsafe was observed to add",
+    "histories also require the reverse direction: once a mark or deny-list entry is removed the call must be let through again (reported under history-wrongly-blocked keys)",
 ]
 NSHARDS = {"quick": 16, "thorough": 16}
 BUDGET_S = {"quick": 14, "thorough": 300}
@@ -286,30 +303,45 @@ def make_callable(kind, mark, rec):
 _envs = {}
 
 
+def new_env(kind, is_async):
+    """A fresh environment of the given kind ('override' = the policy subclass)."""
+    from jinja2.sandbox import ImmutableSandboxedEnvironment, SandboxedEnvironment
+
+    if kind == "sandbox":
+        cls = SandboxedEnvironment
+    elif kind == "immutable":
+        cls = ImmutableSandboxedEnvironment
+    else:
+        class cls(SandboxedEnvironment):
+            vt_denied = frozenset()
+
+            def is_safe_callable(self, obj):
+                if getattr(obj, "vt_forbidden", False):
+                    return False
+                if getattr(obj, "vt_frozen", False):
+                    return False
+                recv = getattr(obj, "__self__", None)
+                if recv is not None and getattr(recv, "vt_frozen", False):
+                    return False
+                if self.vt_denied and getattr(obj, "vt_name", None) in self.vt_denied:
+                    return False
+                return super().is_safe_callable(obj)
+    env = cls(enable_async=is_async, extensions=["jinja2.ext.do"], cache_size=0)
+    env.globals["ident"] = lambda x: x
+
+    async def agen(x):
+        yield x
+    env.globals["agen"] = agen
+    return env
+
+
 def get_env(kind, is_async, templates):
     from jinja2 import DictLoader
-    from jinja2.sandbox import ImmutableSandboxedEnvironment, SandboxedEnvironment
 
     key = (kind, is_async)
     env = _envs.get(key)
     if env is None:
-        if kind == "sandbox":
-            cls = SandboxedEnvironment
-        elif kind == "immutable":
-            cls = ImmutableSandboxedEnvironment
-        else:
-            class cls(SandboxedEnvironment):
-                def is_safe_callable(self, obj):
-                    if getattr(obj, "vt_forbidden", False):
-                        return False
-                    return super().is_safe_callable(obj)
-        env = cls(enable_async=is_async, extensions=["jinja2.ext.do"], cache_size=0)
-        env.globals["ident"] = lambda x: x
-
-        async def agen(x):
-            yield x
-        env.globals["agen"] = agen
-        _envs[key] = env
+        env = _envs[key] = new_env(kind, is_async)
     env.loader = DictLoader(dict(templates))
     return env
 
